@@ -249,6 +249,21 @@ check(
     "DESIGN.md section 4 C15", engine="E2 real backends",
 )
 
+check(
+    "C05", "fault_enumeration",
+    "For Hypothesis-generated Memory workloads (cold/warm calls, source changes, callback-driven invalidation, shelving, "
+    "reduce_size, clear; outputs spanning one or many write calls; compression on/off) an LD_PRELOAD interposer on libc's "
+    "file-system calls first lists the N mutations a reference run issues under the cache directory; then EVERY mutation "
+    "index is used as a crash point (SIGKILL before it) and every write is torn at enumerated lengths.  After each crash a "
+    "fresh process checks that every visible output.pkl is complete, that plain / expires_after / shelved / hit-test calls "
+    "return the live source version's value without raising, twice, and that reduce_size/clear still work.",
+    "Process death, not power loss; crash points are exhaustive per workload (with enumerated torn-write lengths), workloads "
+    "are sampled; runs whose mutation prefix diverges from the reference are discarded and counted; cache on the disk-backed "
+    "file system.",
+    "fault enumeration: exhaustive crash points (libc interposer, SIGKILL / torn writes) over Hypothesis-generated workloads; recovery oracle in a fresh process",
+    "DESIGN.md sections 3 (E3) and 4 C05", engine="E3 fsgate",
+)
+
 NOT_YET = "check not built yet in this session (work in progress; see DESIGN.md section 4 for the planned generator and oracle)"
 
 
@@ -266,6 +281,10 @@ def main():
             "add_only": True,
         },
         "engines": [
+            {"name": "E3 fsgate", "path": "vf/engines/fsgate.c", "serves_properties": ["C05", "C11"],
+             "kind_free_text": "LD_PRELOAD interposer on libc file-system calls: mutation log, crash-before-event-k / torn writes, turn-based scheduling"},
+            {"name": "E2 real backends", "path": "vf/tasks.py", "serves_properties": ["C10", "C15", "C19"],
+             "kind_free_text": "importable task/fault functions logging with O_APPEND; runs on sequential/threading/loky/multiprocessing"},
             {"name": "E6 memmachine", "path": "vf/engines/memmachine.py", "serves_properties": ["C02", "C06"],
              "kind_free_text": "reference-model machine for Memory: self-describing generated functions, call spellings, second interpreter"},
             {"name": "E1 sched", "path": "vf/engines/sched.py", "serves_properties": ["C01", "C04", "C09", "C16"],
